@@ -83,3 +83,30 @@ package beacon
 //@   ensures [C02:aggregator-appends-only-last-plus-one] ok ==> newB.Round == last.Round + 1
 //@   ensures [C02:aggregator-success-means-stored-or-identical] ok ==> stored(c.CallbackStore, newB.Round) && bytesEq(sigOf(c.CallbackStore, newB.Round), newB.Signature)
 //@   call Put#0: assert [C02:aggregator-put-only-next-round] newB.Round == last.Round + 1
+
+// ---- C01 / C10: sync stores only verified beacons -------------------------------
+
+//@ func protoToBeacon(p) (b)
+//@   props C01 C20
+//@   modifies nothing
+//@   ensures [C20:proto-to-beacon-fieldwise] b != nil && (p != nil ==> b.Round == p.Round && b.Signature == p.Signature && b.PreviousSig == p.PreviousSignature)
+
+//@ func beaconToProto(b, beaconID) (p)
+//@   props C01 C20
+//@   requires b != nil
+//@   modifies nothing
+//@   ensures [C20:beacon-to-proto-fieldwise] p != nil && p.Round == b.Round && p.Signature == b.Signature && p.PreviousSignature == b.PreviousSig && p.Metadata != nil && p.Metadata.BeaconID == beaconID
+
+//@ func (*SyncManager).tryNode(s, global, from, upTo, peer) (ok)
+//@   props C01 C10
+//@   requires s.info != nil && s.scheme != nil && common.validPeriod(s.info.Period) && common.validGenesis(s.info.GenesisTime)
+//@   call Put#0: assert [C01:resync-stores-only-verified-beacons] arg2 != nil && crypto.validSig(s.info.PublicKey, crypto.digestOf(s.scheme, arg2.Round, arg2.PreviousSig), arg2.Signature)
+//@   call Put#1: assert [C01:sync-stores-only-verified-beacons] arg2 != nil && crypto.validSig(s.info.PublicKey, crypto.digestOf(s.scheme, arg2.Round, arg2.PreviousSig), arg2.Signature)
+//@   call Put#0: assert [C10:resync-writes-only-the-requested-rounds] from <= arg2.Round && arg2.Round <= upTo
+
+//@ iface (github.com/drand/drand/v2/internal/net.ProtocolClient).SyncChain(c, ctx, p, in) (ch, err)
+//@   trusted gRPC client stub: opens a stream to a peer; touches no node state
+//@   modifies nothing
+//@ iface (github.com/drand/drand/v2/internal/net.ProtocolClient).PartialBeacon(c, ctx, p, in) (err)
+//@   trusted gRPC client stub
+//@   modifies nothing
